@@ -56,6 +56,9 @@ type isoDrv struct {
 	bulkEvery, nBulk   int
 	probeEvery, nProbe int
 	compact            bool
+	partial            bool // partial-range DeleteTableRange in the mix
+	delw               int  // ... in this many steps out of 100
+	delAnyLen          bool
 	lastDump           [][][2]int // what the store showed after the last command (input generation only)
 	delExt             bool
 	nty                int // data types in the command mix (5, or 8 with bitmap / json / hll)
@@ -308,6 +311,189 @@ func (d *isoDrv) one(op string, ty, t, k, a, b int) {
 		rr = 0
 	}
 	d.emit(op, u, a, b, rr, nil)
+}
+
+func (d *isoDrv) emitMulti(op string, a, r int, rl, ks, vs []int) {
+	if rl == nil {
+		rl = []int{}
+	}
+	if vs == nil {
+		vs = []int{}
+	}
+	d.lastDump = d.dump()
+	d.tw.Emit(trace.M{"ev": "cmd", "op": op, "u": 1, "a": a, "b": 0, "r": r, "rl": rl, "ks": ks, "vs": vs, "d": d.lastDump})
+	d.ncmd++
+	d.byOp[op]++
+}
+
+// multiKey: MGET / EXISTS / DEL / MSET over several kv tuples of any tables: existing, absent and
+// (not for MSET) INVALID names - no ':' separator, empty table, over-long - in every position.
+func (d *isoDrv) multiKey() {
+	n := 2 + d.rng.Intn(4)
+	kind := []int{0, 0, 0, 0, 1, 1, 2, 2, 3, 3}[d.rng.Intn(10)] // 0 mget, 1 exists, 2 del, 3 mset
+	var existing [][2]int
+	for t := 1; t <= isoNT; t++ {
+		for k := 1; k <= isoNK; k++ {
+			if d.size[isoTup(1, t, k)-1] > 0 {
+				existing = append(existing, [2]int{t, k})
+			}
+		}
+	}
+	var ks, vs []int
+	var names []string
+	for i := 0; i < n; i++ {
+		if kind != 3 && d.rng.Intn(4) == 0 {
+			code := -1 - d.rng.Intn(3)
+			ks = append(ks, code)
+			switch code {
+			case -1:
+				names = append(names, "nosep"+d.keys[d.rng.Intn(isoNK)])
+			case -2:
+				names = append(names, ":"+d.keys[d.rng.Intn(isoNK)])
+			default:
+				names = append(names, d.tabs[d.rng.Intn(isoNT)]+":"+strings.Repeat("L", 10300))
+			}
+			continue
+		}
+		t, k := 1+d.rng.Intn(isoNT), 1+d.rng.Intn(isoNK)
+		if len(existing) > 0 && d.rng.Intn(2) == 0 {
+			x := existing[d.rng.Intn(len(existing))] // a key that holds a value
+			t, k = x[0], x[1]
+		}
+		if len(ks) > 0 && ks[len(ks)-1] > 0 && d.rng.Intn(5) == 0 {
+			// the same key twice
+			names = append(names, names[len(names)-1])
+			ks = append(ks, ks[len(ks)-1])
+			vs = append(vs, 1+d.rng.Intn(3))
+			continue
+		}
+		u := isoTup(1, t, k)
+		if kind >= 2 && d.doomed[u-1] {
+			return // a tuple with an expiry is not written before the next pass
+		}
+		ks = append(ks, u)
+		vs = append(vs, 1+d.rng.Intn(3))
+		names = append(names, d.rkey(t, k))
+	}
+	switch kind {
+	case 0:
+		keys := make([][]byte, len(names))
+		for i, nm := range names {
+			keys[i] = []byte(nm)
+		}
+		rl := make([]int, len(names))
+		func() {
+			defer func() {
+				if e := recover(); e != nil {
+					d.wd.panics++
+					for i := range rl {
+						rl[i] = -999
+					}
+				}
+			}()
+			vals, errs := d.wd.store.MGet(keys...)
+			for i := range names {
+				switch {
+				case i < len(errs) && errs[i] != nil:
+					rl[i] = -998
+				case i >= len(vals) || vals[i] == nil:
+					rl[i] = -1
+				default:
+					rl[i] = isoVal(vals[i])
+				}
+			}
+		}()
+		d.emitMulti("mget", 0, 0, rl, ks, nil)
+	case 1:
+		keys := make([][]byte, len(names))
+		for i, nm := range names {
+			keys[i] = []byte(nm)
+		}
+		rr := -998
+		if c, err := d.wd.store.KVExists(keys...); err == nil {
+			rr = int(c)
+		}
+		d.emitMulti("mexists", 0, rr, nil, ks, nil)
+	case 2:
+		r := d.wd.apply(append([]string{"del"}, names...)...)
+		for _, u := range ks {
+			if u > 0 {
+				d.size[u-1] = 0
+			}
+		}
+		d.emitMulti("mdel", 0, isoReply(r), nil, ks, nil)
+	default:
+		args := []string{"mset"}
+		for i, nm := range names {
+			args = append(args, nm, "v"+strconv.Itoa(vs[i]))
+		}
+		r := d.wd.apply(args...)
+		rr := 0
+		if _, bad := r.(error); bad {
+			rr = -998
+		}
+		for _, u := range ks {
+			d.size[u-1] = 1
+		}
+		d.emitMulti("mset", 0, rr, nil, ks, vs)
+	}
+}
+
+// delRange: DeleteTableRange of a PARTIAL key range [start, end) of one table, start / end being
+// key names of the world (or absent = open side), proposed like KVNode.DeleteRange does.
+func (d *isoDrv) delRange() {
+	t := 1 + d.rng.Intn(isoNT)
+	for ty := 6; ty <= isoNTy; ty++ {
+		for k := 1; k <= isoNK; k++ {
+			if d.size[isoTup(ty, t, k)-1] > 0 {
+				return // see delTable: open finding on bitmap / JSON / HLL data
+			}
+		}
+	}
+	for ty := 1; ty <= 5; ty++ {
+		for k := 1; k <= isoNK; k++ {
+			if d.doomed[isoTup(ty, t, k)-1] {
+				return
+			}
+		}
+	}
+	if !d.delAnyLen {
+		// open finding C12-delrange-partial-length-order: with key names of different lengths the
+		// data range of the collection types (key behind a length prefix) is not the key range
+		for _, k := range d.keys {
+			if len(k) != len(d.keys[0]) {
+				return
+			}
+		}
+	}
+	lo, hi := d.rng.Intn(isoNK+1), d.rng.Intn(isoNK+1)
+	if lo == 0 && hi == 0 {
+		hi = 1 + d.rng.Intn(isoNK)
+	}
+	dr := node.DeleteTableRange{Table: d.tabs[t-1]}
+	if lo > 0 {
+		dr.StartFrom = []byte(d.keys[lo-1])
+	}
+	if hi > 0 {
+		dr.EndTo = []byte(d.keys[hi-1])
+	}
+	rr := 0
+	if err := dr.CheckValid(); err != nil {
+		rr = -998
+	} else if r := d.wd.delRange(dr); r != nil {
+		rr = -998
+		d.nErr++
+	}
+	if rr == 0 {
+		for ty := 1; ty <= 5; ty++ {
+			for k := 1; k <= isoNK; k++ {
+				if (lo == 0 || k >= lo) && (hi == 0 || k < hi) {
+					d.size[isoTup(ty, t, k)-1] = 0
+				}
+			}
+		}
+	}
+	d.emitMulti("delrange", t, rr, nil, []int{lo, hi}, nil)
 }
 
 // lexOp: ZRANGEBYLEX / ZLEXCOUNT / ZREMRANGEBYLEX with bounds drawn from the sub-key names (the
@@ -625,6 +811,12 @@ func (d *isoDrv) step() {
 	case r < 7 && d.local:
 		d.runExpiry()
 		return
+	case r >= 17 && r < 24:
+		d.multiKey()
+		return
+	case r >= 24 && r < 24+d.delw && d.partial:
+		d.delRange()
+		return
 	case r < 17 && r >= 12:
 		// lexicographic member ranges on a sorted set, preferably a hot one
 		t, k := 1+d.rng.Intn(isoNT), 1+d.rng.Intn(isoNK)
@@ -760,6 +952,10 @@ func isosim(args []string) error {
 	probeEvery := fs.Int("probe", 25, "one step in N is a limit probe (0 = none)")
 	ntypes := fs.Int("types", 8, "data types in the command mix: 5, or 6..8 to add bitmap, json, hyperloglog")
 	delExt := fs.Bool("deltable-ext", false, "whole-table delete also while the table holds bitmap / json / hll data (open finding)")
+	partial := fs.Bool("delrange", true, "partial-range DeleteTableRange [start, end) in the command mix")
+	delw := fs.Int("delrange-w", 2, "partial-range deletes: steps out of 100")
+	delAnyLen := fs.Bool("delrange-anylen", false, "partial-range deletes also in worlds whose key names differ in length (open finding)")
+	keyPool := fs.Int("keypool", -1, "force the pool of the key names (-1: by seed)")
 	burst := fs.Bool("burst", false, "local policy: start every world with keys of three types expiring in one pass")
 	expire := fs.Bool("expire", true, "local policy: include expire commands and the expiry pass")
 	fs.Parse(args)
@@ -787,7 +983,7 @@ func isosim(args []string) error {
 			usable = append(usable, i)
 		}
 	}
-	d := &isoDrv{wd: wd, rng: rng, local: pol == common.LocalDeletion && *expire, byOp: map[string]int{}, touched: map[int]bool{}, bulkEvery: *bulkEvery, nty: *ntypes, delExt: *delExt, probeEvery: *probeEvery, compact: pol == common.WaitCompact, watchdog: 120 * time.Second}
+	d := &isoDrv{wd: wd, rng: rng, local: pol == common.LocalDeletion && *expire, byOp: map[string]int{}, touched: map[int]bool{}, bulkEvery: *bulkEvery, nty: *ntypes, partial: *partial, delw: *delw, delAnyLen: *delAnyLen, delExt: *delExt, probeEvery: *probeEvery, compact: pol == common.WaitCompact, watchdog: 120 * time.Second}
 	if *et == "mem" {
 		d.watchdog = 20 * time.Second // the engine the recorded deadlock is about
 	}
@@ -799,6 +995,9 @@ func isosim(args []string) error {
 		}
 		d.tw = tws[seg%len(tws)]
 		ki, si, ti := usable[rng.Intn(len(usable))], usable[rng.Intn(len(usable))], rng.Intn(len(scnTables))
+		if *keyPool >= 0 {
+			ki = *keyPool
+		}
 		if *tabsel >= 0 {
 			ti = *tabsel
 		}
@@ -835,7 +1034,8 @@ func isosim(args []string) error {
 			return o
 		}
 		// the concrete names are for the report only
-		d.tw.Emit(trace.M{"ev": "reset", "tabs": hx(d.tabs[:]), "keys": hx(d.keys[:]), "subs": hx(d.subs[:])})
+		d.tw.Emit(trace.M{"ev": "reset", "tabs": hx(d.tabs[:]), "keys": hx(d.keys[:]), "subs": hx(d.subs[:]),
+			"klens": []int{len(d.keys[0]), len(d.keys[1]), len(d.keys[2]), len(d.keys[3])}})
 		d.hot = nil
 		for i := 0; i < 6; i++ {
 			d.hot = append(d.hot, [3]int{1 + rng.Intn(d.nty), 1 + rng.Intn(isoNT), 1 + rng.Intn(isoNK)})
